@@ -116,8 +116,8 @@ def run(ctx):
         vlib.expect_dev_counterexample(ctx, "MCBuckets", cfg(2, 2, 2, devs=[d], emit=False, invs=INVS[:-1]), d, extra_files=MC)
     seen, explained = {"n": 0}, {}
     if ctx.thorough:
-        stage(ctx, binary, "decl2-3-obs4", 2, 3, 4, devs, seen, explained)
-        stage(ctx, binary, "decl4-obs3", 4, 4, 3, devs, seen, explained)
+        stage(ctx, binary, "decl2-obs4", 2, 2, 4, devs, seen, explained)
+        stage(ctx, binary, "decl3-4-obs3", 3, 4, 3, devs, seen, explained)
         r = vlib.tlc(ctx, "MCBuckets", cfg(2, 3, 2, emit=False, invs=INVS[:-1]), label="Buckets-coverage", coverage=True, extra_files=MC)
         if covutil.final_zero_cov(r.stdout):
             raise vlib.InfraError("actions never taken in Buckets.tla: %s" % covutil.final_zero_cov(r.stdout))
@@ -138,7 +138,7 @@ def run(ctx):
     ctx.cov["rule"] = ("every (declaration, observation sequence) behaviour of Buckets.tla within the bounds is replayed through the real "
                        "compiler and VM; non-trivial = contains an observation exactly on a boundary, an infinity or NaN, or one at or "
                        "below a non-positive first boundary")
-    ctx.cov["constants"] = {"BoundSet": [-2, -1, 0, 1, 2, 4], "decl_len": "2-4", "MaxObs": "4 (decl 2-3), 3 (decl 4)" if ctx.thorough else 2,
+    ctx.cov["constants"] = {"BoundSet": [-2, -1, 0, 1, 2, 4], "decl_len": "2-4", "MaxObs": "4 (decl 2), 3 (decl 3-4)" if ctx.thorough else 2,
                             "values": "each boundary -1/2, +0, +1/2; first boundary - 3; -Inf; +Inf; NaN"}
     ctx.assumptions += [
         "finite model values are multiples of 1/2 written as decimal text on the log line (float($2) parses them exactly); 9999/1000/-1000 stand for NaN/+Inf/-Inf",
